@@ -10,7 +10,6 @@ package dtls
 // must succeed.
 
 import (
-	"net"
 	"bytes"
 	"crypto"
 	"crypto/ecdsa"
@@ -21,9 +20,14 @@ import (
 	"crypto/x509"
 	"crypto/x509/pkix"
 	"encoding/asn1"
+	"encoding/pem"
 	"fmt"
+	"github.com/pion/dtls/v3/pkg/protocol"
 	"io"
 	"math/big"
+	"net"
+	"os"
+	"path/filepath"
 	"strings"
 	"sync"
 	"testing"
@@ -765,9 +769,59 @@ func vfC03ResumeOtherName(t *testing.T, res *vfResult, first, second string) {
 	synctest.Wait()
 }
 
+// vfC03PSKPolicyUnder13: the honest client's only credential policy is a pre-shared key (no roots, no server name),
+// but its version range includes DTLS 1.3, where this implementation authenticates with certificates only. A server
+// that holds some certificate of a CA the machine trusts - and no PSK - must not obtain an established connection.
+// (The machine's trust store is simulated: SSL_CERT_FILE points at the harness CA for this test process.)
+func vfC03PSKPolicyUnder13(t *testing.T, res *vfResult, clientVer string) {
+	pki := vfGetPKI()
+	res.Eval(1)
+	id := "psk-only-client-with-dtls13-enabled/client-versions=" + clientVer
+	psk := func([]byte) ([]byte, error) { return vfPSKKey, nil }
+	var cO []Option
+	switch clientVer {
+	case "dual":
+		cO = append(cO, WithMinVersion(protocol.Version1_2), WithMaxVersion(protocol.Version1_3),
+			WithCipherSuites(TLS_PSK_WITH_AES_128_GCM_SHA256, TLS_AES_128_GCM_SHA256))
+	case "13":
+		cO = append(cO, vfV13()...)
+	case "dual-default-suites":
+		cO = append(cO, WithMinVersion(protocol.Version1_2), WithMaxVersion(protocol.Version1_3))
+	}
+	cO = append(cO, WithPSK(psk), WithPSKIdentityHint([]byte("id")))
+	sO := append(vfV13(), WithCertificates(pki.Leaf("ecdsa", "server-wrongname"))) // any certificate of the trusted CA
+	n := vfNewNet()
+	p, err := vfNewPair(n, vfCO(cO...), append(vfSO(sO...), WithInsecureSkipVerifyHello(true)))
+	res.NonTrivial(id)
+	res.Count("psk_policy_under_13_cases", 1)
+	if err != nil {
+		res.Count("psk_policy_under_13_config_refused", 1)
+		res.Seen("psk_policy_under_13_config_errors", id+": "+vfErrNorm(err))
+
+		return
+	}
+	ce, se := p.Handshake(20 * time.Second)
+	if ce == nil {
+		res.Violate("C03:accepted-without-credential:v13:rogue-s:psk-only-client-accepts-certificate",
+			fmt.Sprintf("%s: a client whose only credential policy is a pre-shared key completed a DTLS 1.3 handshake (server error: %v) with a server that holds no PSK, only some certificate of a CA in the machine's trust store (no server name is checked)", id, se),
+			map[string]any{"row": id})
+	} else {
+		res.Count("rejected_as_required", 1)
+	}
+	p.Close()
+	synctest.Wait()
+}
+
 func TestVF_C03(t *testing.T) {
 	vfGetPKI()
 	vfInstallFilter()
+	// the machine's trust store, for endpoints configured without RootCAs: the harness CA only
+	if dir := vfEnv().Out; dir != "" {
+		pemPath := filepath.Join(dir, "c03-system-roots.pem")
+		_ = os.WriteFile(pemPath, pem.EncodeToMemory(&pem.Block{Type: "CERTIFICATE", Bytes: vfGetPKI().CA.Raw}), 0o600)
+		_ = os.Setenv("SSL_CERT_FILE", pemPath)
+		_ = os.Setenv("SSL_CERT_DIR", filepath.Join(dir, "no-such-dir"))
+	}
 	res := vfNewResult("C03", "exhaustive deviation table: rogue server (unknown CA, wrong name, expired, stolen chain signed with another key, "+
 		"omitted Certificate / ServerKeyExchange / CertificateVerify) x key type x client verification on/off, rogue client (no certificate, "+
 		"untrusted, expired, stolen chain, omitted CertificateVerify / Certificate) x the five client-auth policies, wrong PSK, for DTLS 1.2 and 1.3; "+
@@ -790,6 +844,8 @@ func TestVF_C03(t *testing.T) {
 	vfBubbles(t, len(rbs), func(t *testing.T, i int) { vfC03ResumeBypass(t, res, rbs[i].pol, rbs[i].ems) })
 	names := [][2]string{{vfServerName, "other.example"}, {"192.0.2.7", "192.0.2.8"}, {"2001:db8::7", "2001:db8::8"}, {"192.0.2.7", "other.example"}, {vfServerName, "192.0.2.8"}}
 	vfBubbles(t, len(names), func(t *testing.T, i int) { vfC03ResumeOtherName(t, res, names[i][0], names[i][1]) })
+	pv := []string{"dual", "13", "dual-default-suites"}
+	vfBubbles(t, len(pv), func(t *testing.T, i int) { vfC03PSKPolicyUnder13(t, res, pv[i]) })
 	res.Exhaustive = true
 	res.Floor("rejected_as_required", 40)
 	res.Floor("accepted_as_required", 30)
